@@ -17,6 +17,12 @@ use std::panic::{catch_unwind, AssertUnwindSafe};
 
 pub struct Counting;
 
+/// process-wide live bytes (all threads)
+pub static PROCESS_LIVE: std::sync::atomic::AtomicIsize = std::sync::atomic::AtomicIsize::new(0);
+/// the process-wide counter is only maintained while this is set (a single shared atomic updated on every
+/// allocation of 16 busy threads would serialise them)
+pub static TRACK_PROCESS: std::sync::atomic::AtomicBool = std::sync::atomic::AtomicBool::new(false);
+
 thread_local! {
     static LIVE: Cell<isize> = const { Cell::new(0) };
     static ALLOCS: Cell<usize> = const { Cell::new(0) };
@@ -28,17 +34,26 @@ unsafe impl GlobalAlloc for Counting {
         if !p.is_null() {
             let _ = LIVE.try_with(|c| c.set(c.get() + l.size() as isize));
             let _ = ALLOCS.try_with(|c| c.set(c.get() + 1));
+            if TRACK_PROCESS.load(std::sync::atomic::Ordering::Relaxed) {
+                PROCESS_LIVE.fetch_add(l.size() as isize, std::sync::atomic::Ordering::Relaxed);
+            }
         }
         p
     }
     unsafe fn dealloc(&self, p: *mut u8, l: Layout) {
         System.dealloc(p, l);
         let _ = LIVE.try_with(|c| c.set(c.get() - l.size() as isize));
+        if TRACK_PROCESS.load(std::sync::atomic::Ordering::Relaxed) {
+            PROCESS_LIVE.fetch_sub(l.size() as isize, std::sync::atomic::Ordering::Relaxed);
+        }
     }
     unsafe fn realloc(&self, p: *mut u8, l: Layout, new: usize) -> *mut u8 {
         let q = System.realloc(p, l, new);
         if !q.is_null() {
             let _ = LIVE.try_with(|c| c.set(c.get() + new as isize - l.size() as isize));
+            if TRACK_PROCESS.load(std::sync::atomic::Ordering::Relaxed) {
+                PROCESS_LIVE.fetch_add(new as isize - l.size() as isize, std::sync::atomic::Ordering::Relaxed);
+            }
         }
         q
     }
@@ -91,6 +106,12 @@ fn warm_up() {
     }
 }
 
+/// touch the per-thread state of the harness itself without generating anything
+fn warm_flag_only() {
+    WARM.with(|w| w.set(w.get()));
+    let _ = live();
+}
+
 fn has_cycle(g: &Graph) -> bool {
     // iterative DFS with colours
     let n = g.nodes.len();
@@ -128,7 +149,10 @@ fn monitor(ctx: &RunCtx) -> Vec<Finding> {
     if l1 == 0 {
         // a path that built a reference cycle is also repeated on ONE generator: state carried from one generation
         // to the next (remembered cells, caches keyed by address) must not keep a later cycle alive
-        if ctx.tr.graphs.iter().any(|(_, g)| has_cycle(g)) {
+        // (only for the transition that closes the cycle: graph acyclic before the last step, cyclic after it)
+        let n = ctx.tr.graphs.len();
+        let closes_now = n >= 2 && has_cycle(&ctx.tr.graphs[n - 1].1) && !ctx.tr.graphs[..n - 1].iter().any(|(_, g)| has_cycle(g));
+        if closes_now || (n >= 3 && has_cycle(&ctx.tr.graphs[n - 2].1) && !ctx.tr.graphs[..n - 2].iter().any(|(_, g)| has_cycle(g))) {
             let other = {
                 let mut d = vec![0x5au8; 24];
                 d.resize(24 + ZERO_TAIL, 0);
@@ -183,6 +207,52 @@ pub fn c14(tier: &str) -> i32 {
     let mut rep = Report::new("C14", tier);
     let verbose = std::env::var("VERIF_VERBOSE").is_ok();
     let guard = |ctx: &RunCtx| -> Vec<Finding> { monitor(ctx) };
+    // fresh threads: a long-running process that generates on short-lived threads must not grow per thread. Run
+    // first, while no other thread of this process allocates: spawn, generate (GLOBAL/INST included), drop, join.
+    {
+        use std::sync::atomic::Ordering;
+        let work = |p: u8, seed: u64| {
+            let cfg = Cfg::new(p).flags(true, true).range(80, 120);
+            let _ = leak_of_history(&cfg, seed, &[Call::Seeded, Call::Bytes(vec![0x11; 40])]);
+            let cfg2 = Cfg::new(p).flags(true, true).muts(&FULL, 0.5, true).range(40, 60);
+            let _ = leak_of_history(&cfg2, seed, &[Call::Seeded]);
+        };
+        work(2, 1); // process-level warm-up on this thread
+        TRACK_PROCESS.store(true, Ordering::SeqCst);
+        let n_threads = if quick { 10 } else { 40 };
+        // control: threads that do everything the harness does per thread (watchdog slot, thread-locals) but no generation
+        let mut run_threads = |generate: bool| -> Vec<isize> {
+            let mut levels = vec![];
+            for i in 0..n_threads {
+                let p = (i % 6) as u8;
+                let h = std::thread::spawn(move || {
+                    let _w = crate::watch::enter_light();
+                    warm_flag_only();
+                    if generate {
+                        work(p, 100 + i as u64);
+                    }
+                });
+                let _ = h.join();
+                levels.push(PROCESS_LIVE.load(Ordering::Relaxed));
+            }
+            levels
+        };
+        let control = run_threads(false);
+        let levels = run_threads(true);
+        TRACK_PROCESS.store(false, Ordering::SeqCst);
+        let per_thread = |l: &[isize]| (l[l.len() - 1] - l[3]) as f64 / (l.len() - 4) as f64;
+        let (c, g) = (per_thread(&control), per_thread(&levels));
+        rep.set("fresh_thread_growth_bytes_per_thread", json!({"control_threads_without_generation": c, "generating_threads": g, "threads": n_threads}));
+        rep.transitions += 2 * n_threads as u64;
+        let growth = g - c;
+        if growth > 512.0 {
+            rep.finding_raw(
+                "leak:per-fresh-thread",
+                &format!("every short-lived generating thread leaves {growth:.0} bytes more on the process heap than a thread that does not generate ({n_threads} threads each)"),
+                json!({"kind":"digest","what":"spawn a thread, generate default pickles (GLOBAL/INST present), drop, join; repeat"}),
+            );
+        }
+    }
     for p in 0..=5u8 {
         for (label, cfg) in [("none", Cfg::new(p).flags(true, true)), ("full-safe@0.5", Cfg::new(p).flags(true, true).muts(&FULL, 0.5, false)), ("full-unsafe@0.5", Cfg::new(p).flags(true, true).muts(&FULL, 0.5, true))] {
             let has_m = !cfg.mutators.is_empty();
